@@ -1,1400 +1,5 @@
-//! E3: virtual-clock interpreter. Serves C10 (timeouts, zero wait, missing runtime).
-//!
-//! Cases with a runtime run inside `block_on` of a current-thread tokio runtime
-//! with a paused clock; futures are polled by hand and every woken future is
-//! polled right after every step (as an executor would). `Advance` never jumps
-//! over a pending deadline: it stops at each one. Cases without a runtime are
-//! polled plainly with no tokio context at all.
-//!
-//! Oracle: an independent reference model of slot admission (FIFO), idle queue,
-//! gated create / recycle calls and their deadlines on the virtual clock.
-
-use std::collections::VecDeque;
-use std::future::Future;
-use std::panic::{catch_unwind, AssertUnwindSafe};
-use std::pin::Pin;
-use std::sync::{Arc, Mutex};
-use std::task::{Context, Poll, Waker};
-use std::time::Duration;
-
-use deadpool::managed::{self, Manager, Metrics, PoolError, RecycleError, RecycleResult, TimeoutType, Timeouts};
-use deadpool::{unmanaged, Runtime};
-use proptest::prelude::*;
-use proptest::strategy::BoxedStrategy;
-use serde::{Deserialize, Serialize};
-use vcore::drive::{Ctx, Engine, Report, Stage, Tier, Violation};
-use vcore::pick;
-use vcore::sched::{classify_panic, lock, WakeFlag};
-
-// ------------------------------------------------------------------ case
-
-#[derive(Clone, Copy, Debug, Serialize, Deserialize, PartialEq, Eq, Hash)]
-pub enum Tmo {
-    None,
-    Zero,
-    Ms(u16),
-}
-
-impl Tmo {
-    fn dur(self) -> Option<Duration> {
-        match self {
-            Tmo::None => None,
-            Tmo::Zero => Some(Duration::ZERO),
-            Tmo::Ms(m) => Some(Duration::from_millis(m as u64)),
-        }
-    }
-    fn ms(self) -> Option<u64> {
-        match self {
-            Tmo::None => None,
-            Tmo::Zero => Some(0),
-            Tmo::Ms(m) => Some(m as u64),
-        }
-    }
-    fn nonzero(self) -> bool {
-        matches!(self, Tmo::Ms(m) if m > 0)
-    }
-}
-
-#[derive(Clone, Copy, Debug, Serialize, Deserialize, PartialEq, Eq, Hash)]
-pub struct T3 {
-    pub wait: Tmo,
-    pub create: Tmo,
-    pub recycle: Tmo,
-}
-
-impl T3 {
-    fn timeouts(self) -> Timeouts {
-        Timeouts {
-            wait: self.wait.dur(),
-            create: self.create.dur(),
-            recycle: self.recycle.dur(),
-        }
-    }
-}
-
-#[derive(Clone, Copy, Debug, Serialize, Deserialize, PartialEq, Eq, Hash)]
-pub enum Out {
-    Ok,
-    Err,
-    /// pending until OpenGate, then ok / error
-    Gate(bool),
-    Never,
-}
-
-#[derive(Clone, Copy, Debug, Serialize, Deserialize, PartialEq, Eq, Hash)]
-pub enum Step {
-    /// pool.get() (pool-level timeouts) or pool.timeout_get(per_call)
-    Get { per_call: Option<T3> },
-    Advance { ms: u16 },
-    OpenGate { i: u8 },
-    Return { h: u8 },
-    Close,
-}
-
-#[derive(Clone, Debug, Serialize, Deserialize, PartialEq, Eq, Hash)]
-pub struct Case {
-    pub unmanaged: bool,
-    pub runtime: bool,
-    pub max_size: u8,
-    pub pool_t: T3,
-    pub create: Vec<Out>,
-    pub recycle: Vec<Out>,
-    pub steps: Vec<Step>,
-}
-
-// ------------------------------------------------------------------ world
-
-struct GateW {
-    open: bool,
-    ok: bool,
-    never: bool,
-    dead: bool,
-    waker: Option<Waker>,
-}
-
-struct W {
-    log: Vec<String>,
-    create: Vec<Out>,
-    recycle: Vec<Out>,
-    n_create: usize,
-    n_recycle: usize,
-    next_obj: u32,
-    destroyed: Vec<bool>,
-    detached: Vec<u32>,
-    gates: Vec<GateW>,
-}
-
-struct World(Mutex<W>);
-
-impl World {
-    fn w(&self) -> std::sync::MutexGuard<'_, W> {
-        lock(&self.0)
-    }
-}
-
-struct Obj {
-    id: u32,
-    world: Arc<World>,
-}
-
-impl Drop for Obj {
-    fn drop(&mut self) {
-        let mut w = self.world.w();
-        w.log.push(format!("Destroyed({})", self.id));
-        let id = self.id as usize;
-        if id < w.destroyed.len() {
-            w.destroyed[id] = true;
-        }
-    }
-}
-
-struct GateFut {
-    world: Arc<World>,
-    gate: usize,
-}
-
-impl Future for GateFut {
-    type Output = bool;
-    fn poll(self: Pin<&mut Self>, cx: &mut Context<'_>) -> Poll<bool> {
-        let mut w = self.world.w();
-        let g = &mut w.gates[self.gate];
-        if g.open {
-            Poll::Ready(g.ok)
-        } else {
-            g.waker = Some(cx.waker().clone());
-            Poll::Pending
-        }
-    }
-}
-
-struct GateGuard {
-    world: Arc<World>,
-    gate: usize,
-}
-
-impl Drop for GateGuard {
-    fn drop(&mut self) {
-        self.world.w().gates[self.gate].dead = true;
-    }
-}
-
-async fn scripted(world: Arc<World>, out: Out) -> bool {
-    match out {
-        Out::Ok => true,
-        Out::Err => false,
-        Out::Gate(_) | Out::Never => {
-            let never = matches!(out, Out::Never);
-            let ok = if let Out::Gate(ok) = out { ok } else { true };
-            let gate = {
-                let mut w = world.w();
-                w.gates.push(GateW {
-                    open: false,
-                    ok,
-                    never,
-                    dead: false,
-                    waker: None,
-                });
-                w.gates.len() - 1
-            };
-            let _guard = GateGuard {
-                world: world.clone(),
-                gate,
-            };
-            GateFut { world, gate }.await
-        }
-    }
-}
-
-struct Mgr {
-    world: Arc<World>,
-}
-
-#[derive(Debug)]
-struct TErr;
-
-impl Manager for Mgr {
-    type Type = Obj;
-    type Error = TErr;
-
-    fn create(&self) -> impl Future<Output = Result<Obj, TErr>> + Send {
-        let world = self.world.clone();
-        async move {
-            let out = {
-                let mut w = world.w();
-                let i = w.n_create;
-                w.n_create += 1;
-                w.log.push(format!("CreateCall({})", i));
-                w.create.get(i).copied().unwrap_or(Out::Ok)
-            };
-            if scripted(world.clone(), out).await {
-                let mut w = world.w();
-                let id = w.next_obj;
-                w.next_obj += 1;
-                w.destroyed.push(false);
-                w.detached.push(0);
-                w.log.push(format!("Created({})", id));
-                drop(w);
-                Ok(Obj { id, world })
-            } else {
-                world.w().log.push("CreateErr".into());
-                Err(TErr)
-            }
-        }
-    }
-
-    fn recycle(&self, obj: &mut Obj, _: &Metrics) -> impl Future<Output = RecycleResult<TErr>> + Send {
-        let world = self.world.clone();
-        let id = obj.id;
-        async move {
-            let out = {
-                let mut w = world.w();
-                let i = w.n_recycle;
-                w.n_recycle += 1;
-                w.log.push(format!("RecycleCall({}, obj {})", i, id));
-                w.recycle.get(i).copied().unwrap_or(Out::Ok)
-            };
-            if scripted(world.clone(), out).await {
-                world.w().log.push(format!("RecycleOk({})", id));
-                Ok(())
-            } else {
-                world.w().log.push(format!("RecycleErr({})", id));
-                Err(RecycleError::message("scripted"))
-            }
-        }
-    }
-
-    fn detach(&self, obj: &mut Obj) {
-        let mut w = self.world.w();
-        w.log.push(format!("Detach({})", obj.id));
-        let id = obj.id as usize;
-        if id < w.detached.len() {
-            w.detached[id] += 1;
-        }
-    }
-}
-
-// ------------------------------------------------------------------ model
-
-#[derive(Clone, Debug, PartialEq, Eq)]
-enum Res {
-    Ok(u32),
-    TimeoutWait,
-    TimeoutCreate,
-    Closed,
-    NoRuntime,
-    Backend,
-    /// unmanaged flavours
-    UTimeout,
-}
-
-#[derive(Clone, Debug, PartialEq, Eq)]
-enum Phase {
-    Waiting { deadline: Option<u64> },
-    Creating { deadline: Option<u64>, gate: usize },
-    Recycling { deadline: Option<u64>, gate: usize, obj: u32 },
-    Done(Res),
-}
-
-#[derive(Clone, Debug)]
-struct MGet {
-    t: T3,
-    phase: Phase,
-}
-
-#[derive(Clone)]
-struct MGate {
-    get: usize,
-    ok: bool,
-    never: bool,
-    dead: bool,
-}
-
-#[derive(Clone)]
-struct Model {
-    runtime: bool,
-    max: usize,
-    now: u64,
-    in_use: usize,
-    idle: VecDeque<u32>,
-    waiters: VecDeque<usize>,
-    gets: Vec<MGet>,
-    gates: Vec<MGate>,
-    create: Vec<Out>,
-    recycle: Vec<Out>,
-    n_create: usize,
-    n_recycle: usize,
-    next_obj: u32,
-    closed: bool,
-    /// objects the model expects to have been destroyed (rejected)
-    destroyed: Vec<u32>,
-    /// a situation the statement leaves open was met: stop judging this case
-    unspecified: Option<String>,
-    /// deadline raced a completion within one clock step
-    close_calls: bool,
-}
-
-impl Model {
-    fn start_get(&mut self, t: T3) -> usize {
-        let g = self.gets.len();
-        self.gets.push(MGet {
-            t,
-            phase: Phase::Waiting { deadline: None },
-        });
-        if !self.runtime && t.wait.nonzero() {
-            self.gets[g].phase = Phase::Done(Res::NoRuntime);
-            return g;
-        }
-        if self.closed {
-            self.gets[g].phase = Phase::Done(Res::Closed);
-            return g;
-        }
-        if self.in_use < self.max && self.waiters.is_empty() {
-            self.in_use += 1;
-            self.proceed(g);
-        } else {
-            match t.wait {
-                Tmo::Zero => self.gets[g].phase = Phase::Done(Res::TimeoutWait),
-                Tmo::Ms(0) => self.gets[g].phase = Phase::Done(Res::TimeoutWait),
-                Tmo::None => {
-                    self.gets[g].phase = Phase::Waiting { deadline: None };
-                    self.waiters.push_back(g);
-                }
-                Tmo::Ms(m) => {
-                    self.gets[g].phase = Phase::Waiting {
-                        deadline: Some(self.now + m as u64),
-                    };
-                    self.waiters.push_back(g);
-                }
-            }
-        }
-        g
-    }
-
-    fn release_slot(&mut self) {
-        self.in_use -= 1;
-        self.grant();
-    }
-
-    fn grant(&mut self) {
-        while self.in_use < self.max && !self.closed {
-            let Some(g) = self.waiters.pop_front() else { break };
-            self.in_use += 1;
-            self.proceed(g);
-        }
-    }
-
-    /// getter g holds a slot: try idle objects, then create
-    fn proceed(&mut self, g: usize) {
-        let t = self.gets[g].t;
-        loop {
-            if let Some(obj) = self.idle.pop_front() {
-                if !self.runtime && t.recycle.ms().is_some() {
-                    if t.recycle.nonzero() {
-                        // must be reported, and the idle object must survive
-                        self.idle.push_front(obj);
-                        self.in_use -= 1;
-                        self.gets[g].phase = Phase::Done(Res::NoRuntime);
-                        self.grant();
-                        return;
-                    }
-                    self.unspecified = Some("zero recycle timeout without a runtime".into());
-                    return;
-                }
-                let i = self.n_recycle;
-                self.n_recycle += 1;
-                let out = self.recycle.get(i).copied().unwrap_or(Out::Ok);
-                match out {
-                    Out::Ok => {
-                        self.gets[g].phase = Phase::Done(Res::Ok(obj));
-                        return;
-                    }
-                    Out::Err => {
-                        self.destroyed.push(obj);
-                        continue;
-                    }
-                    Out::Gate(ok) => {
-                        self.gates.push(MGate { get: g, ok, never: false, dead: false });
-                        let gate = self.gates.len() - 1;
-                        if t.recycle.ms() == Some(0) {
-                            // polled once, pending, deadline already over
-                            self.gates[gate].dead = true;
-                            self.destroyed.push(obj);
-                            continue;
-                        }
-                        self.gets[g].phase = Phase::Recycling {
-                            deadline: t.recycle.ms().map(|m| self.now + m),
-                            gate,
-                            obj,
-                        };
-                        return;
-                    }
-                    Out::Never => {
-                        self.gates.push(MGate { get: g, ok: true, never: true, dead: false });
-                        let gate = self.gates.len() - 1;
-                        if t.recycle.ms() == Some(0) {
-                            self.gates[gate].dead = true;
-                            self.destroyed.push(obj);
-                            continue;
-                        }
-                        self.gets[g].phase = Phase::Recycling {
-                            deadline: t.recycle.ms().map(|m| self.now + m),
-                            gate,
-                            obj,
-                        };
-                        return;
-                    }
-                }
-            } else {
-                if !self.runtime && t.create.ms().is_some() {
-                    if t.create.nonzero() {
-                        self.gets[g].phase = Phase::Done(Res::NoRuntime);
-                        self.release_slot();
-                        return;
-                    }
-                    self.unspecified = Some("zero create timeout without a runtime".into());
-                    return;
-                }
-                let i = self.n_create;
-                self.n_create += 1;
-                let out = self.create.get(i).copied().unwrap_or(Out::Ok);
-                match out {
-                    Out::Ok => {
-                        let id = self.next_obj;
-                        self.next_obj += 1;
-                        self.gets[g].phase = Phase::Done(Res::Ok(id));
-                        return;
-                    }
-                    Out::Err => {
-                        self.gets[g].phase = Phase::Done(Res::Backend);
-                        self.release_slot();
-                        return;
-                    }
-                    Out::Gate(_) | Out::Never => {
-                        let (ok, never) = match out {
-                            Out::Gate(ok) => (ok, false),
-                            _ => (true, true),
-                        };
-                        self.gates.push(MGate { get: g, ok, never, dead: false });
-                        let gate = self.gates.len() - 1;
-                        if t.create.ms() == Some(0) {
-                            self.gates[gate].dead = true;
-                            self.gets[g].phase = Phase::Done(Res::TimeoutCreate);
-                            self.release_slot();
-                            return;
-                        }
-                        self.gets[g].phase = Phase::Creating {
-                            deadline: t.create.ms().map(|m| self.now + m),
-                            gate,
-                        };
-                        return;
-                    }
-                }
-            }
-        }
-    }
-
-    fn closed_gates(&self) -> Vec<usize> {
-        self.gates
-            .iter()
-            .enumerate()
-            .filter(|(_, g)| !g.dead && !g.never)
-            .map(|(i, _)| i)
-            .collect()
-    }
-
-    fn open_gate(&mut self, gate: usize) {
-        let (g, ok) = (self.gates[gate].get, self.gates[gate].ok);
-        self.gates[gate].dead = true;
-        match self.gets[g].phase.clone() {
-            Phase::Creating { .. } => {
-                if ok {
-                    let id = self.next_obj;
-                    self.next_obj += 1;
-                    self.gets[g].phase = Phase::Done(Res::Ok(id));
-                } else {
-                    self.gets[g].phase = Phase::Done(Res::Backend);
-                    self.release_slot();
-                }
-            }
-            Phase::Recycling { obj, .. } => {
-                if ok {
-                    self.gets[g].phase = Phase::Done(Res::Ok(obj));
-                } else {
-                    self.destroyed.push(obj);
-                    self.proceed(g);
-                }
-            }
-            _ => {}
-        }
-    }
-
-    fn next_deadline(&self) -> Option<u64> {
-        self.gets
-            .iter()
-            .filter_map(|g| match g.phase {
-                Phase::Waiting { deadline } | Phase::Creating { deadline, .. } | Phase::Recycling { deadline, .. } => deadline,
-                _ => None,
-            })
-            .min()
-    }
-
-    /// the clock reached `self.now`: expire what is due. Returns false on a tie
-    /// between two different getters (outcome order not defined).
-    fn expire(&mut self) -> bool {
-        let due: Vec<usize> = self
-            .gets
-            .iter()
-            .enumerate()
-            .filter(|(_, g)| match g.phase {
-                Phase::Waiting { deadline } | Phase::Creating { deadline, .. } | Phase::Recycling { deadline, .. } => {
-                    deadline.map(|d| d <= self.now).unwrap_or(false)
-                }
-                _ => false,
-            })
-            .map(|(i, _)| i)
-            .collect();
-        if due.len() > 1 {
-            return false;
-        }
-        for g in due {
-            match self.gets[g].phase.clone() {
-                Phase::Waiting { .. } => {
-                    self.waiters.retain(|x| *x != g);
-                    self.gets[g].phase = Phase::Done(Res::TimeoutWait);
-                }
-                Phase::Creating { gate, .. } => {
-                    self.gates[gate].dead = true;
-                    self.gets[g].phase = Phase::Done(Res::TimeoutCreate);
-                    self.release_slot();
-                }
-                Phase::Recycling { gate, obj, .. } => {
-                    self.gates[gate].dead = true;
-                    self.destroyed.push(obj);
-                    self.proceed(g);
-                }
-                Phase::Done(_) => {}
-            }
-        }
-        true
-    }
-
-    fn ret(&mut self, obj: u32) {
-        if self.closed {
-            self.destroyed.push(obj);
-            self.in_use -= 1;
-            return;
-        }
-        self.idle.push_back(obj);
-        self.release_slot();
-    }
-
-    fn close(&mut self) {
-        self.closed = true;
-        for o in self.idle.drain(..) {
-            self.destroyed.push(o);
-        }
-        for g in self.waiters.drain(..).collect::<Vec<_>>() {
-            self.gets[g].phase = Phase::Done(Res::Closed);
-        }
-    }
-}
-
-// ------------------------------------------------------------------ interpreter (managed)
-
-type GetFut = Pin<Box<dyn Future<Output = Result<managed::Object<Mgr>, PoolError<TErr>>> + Send>>;
-
-struct RGet {
-    fut: Option<GetFut>,
-    flag: Arc<WakeFlag>,
-    done: Option<Res>,
-    first_poll_pending_zero_wait: bool,
-}
-
-fn res_of(r: &Result<managed::Object<Mgr>, PoolError<TErr>>) -> Result<Res, String> {
-    Ok(match r {
-        Ok(o) => Res::Ok(o.id),
-        Err(PoolError::Timeout(TimeoutType::Wait)) => Res::TimeoutWait,
-        Err(PoolError::Timeout(TimeoutType::Create)) => Res::TimeoutCreate,
-        Err(PoolError::Timeout(TimeoutType::Recycle)) => return Err("Timeout(Recycle) returned by get()".into()),
-        Err(PoolError::Closed) => Res::Closed,
-        Err(PoolError::NoRuntimeSpecified) => Res::NoRuntime,
-        Err(PoolError::Backend(_)) => Res::Backend,
-        Err(PoolError::PostCreateHook(_)) => return Err("PostCreateHook error without hooks".into()),
-    })
-}
-
-struct Outcome {
-    violation: Option<(String, String)>,
-    labels: Vec<String>,
-    nontrivial: bool,
-    trace: Vec<String>,
-    step: usize,
-}
-
-fn run_managed(case: &Case) -> Outcome {
-    let world = Arc::new(World(Mutex::new(W {
-        log: vec![],
-        create: case.create.clone(),
-        recycle: case.recycle.clone(),
-        n_create: 0,
-        n_recycle: 0,
-        next_obj: 0,
-        destroyed: vec![],
-        detached: vec![],
-        gates: vec![],
-    })));
-    let mut out = Outcome {
-        violation: None,
-        labels: vec![],
-        nontrivial: false,
-        trace: vec![],
-        step: 0,
-    };
-    let rt = if case.runtime {
-        Some(
-            tokio::runtime::Builder::new_current_thread()
-                .enable_time()
-                .start_paused(true)
-                .build()
-                .expect("runtime"),
-        )
-    } else {
-        None
-    };
-    let body = run_managed_body(case, world.clone(), &mut out);
-    // drive the body: it only ever awaits tokio::time::advance
-    let r = catch_unwind(AssertUnwindSafe(|| match &rt {
-        Some(rt) => rt.block_on(body),
-        None => {
-            // no tokio context at all: the body never awaits anything that is pending
-            let waker = Waker::from(WakeFlag::new());
-            let mut cx = Context::from_waker(&waker);
-            let mut body = Box::pin(body);
-            match body.as_mut().poll(&mut cx) {
-                Poll::Ready(()) => {}
-                Poll::Pending => panic!("harness: body pending without a runtime"),
-            }
-        }
-    }));
-    if let Err(p) = r {
-        let pk = classify_panic(p);
-        if out.violation.is_none() {
-            out.violation = Some(("panic".into(), format!("a pool call panicked: {:?}", pk)));
-        }
-    }
-    out.trace = world.w().log.clone();
-    out
-}
-
-async fn run_managed_body(case: &Case, world: Arc<World>, out: &mut Outcome) {
-    macro_rules! fail {
-        ($o:expr, $($a:tt)*) => {{
-            if out.violation.is_none() {
-                out.violation = Some(($o.to_string(), format!($($a)*)));
-            }
-            return;
-        }};
-    }
-    let max = case.max_size as usize;
-    // ---- build
-    let mut b = managed::Pool::<Mgr>::builder(Mgr { world: world.clone() })
-        .max_size(max)
-        .timeouts(case.pool_t.timeouts());
-    if case.runtime {
-        b = b.runtime(Runtime::Tokio1);
-    }
-    let any_nonzero = case.pool_t.wait.nonzero() || case.pool_t.create.nonzero() || case.pool_t.recycle.nonzero();
-    let any_some = case.pool_t.wait.ms().is_some() || case.pool_t.create.ms().is_some() || case.pool_t.recycle.ms().is_some();
-    let pool = match b.build() {
-        Ok(p) => {
-            if !case.runtime && any_nonzero {
-                fail!("build-accepted-timeouts-without-runtime", "build() succeeded although non-zero timeouts {:?} are configured without a runtime", case.pool_t);
-            }
-            p
-        }
-        Err(e) => {
-            if case.runtime || !any_some {
-                fail!("build-failed", "build() failed with {:?} (runtime {}, timeouts {:?})", e, case.runtime, case.pool_t);
-            }
-            out.labels.push("build:NoRuntimeSpecified".into());
-            out.nontrivial = any_nonzero;
-            return;
-        }
-    };
-    if pool.timeouts().wait != case.pool_t.wait.dur() || pool.timeouts().create != case.pool_t.create.dur() || pool.timeouts().recycle != case.pool_t.recycle.dur() {
-        fail!("timeouts-not-kept", "pool.timeouts() is {:?}, configured {:?}", pool.timeouts(), case.pool_t);
-    }
-    let mut model = Model {
-        runtime: case.runtime,
-        max,
-        now: 0,
-        in_use: 0,
-        idle: VecDeque::new(),
-        waiters: VecDeque::new(),
-        gets: vec![],
-        gates: vec![],
-        create: case.create.clone(),
-        recycle: case.recycle.clone(),
-        n_create: 0,
-        n_recycle: 0,
-        next_obj: 0,
-        closed: false,
-        destroyed: vec![],
-        unspecified: None,
-        close_calls: false,
-    };
-    let mut gets: Vec<RGet> = vec![];
-    let mut held: Vec<managed::Object<Mgr>> = vec![];
-
-    // poll every woken future until nothing is woken; compare with the model
-    macro_rules! settle {
-        () => {{
-            for _round in 0..64 {
-                let mut progressed = false;
-                for gi in 0..gets.len() {
-                    if gets[gi].done.is_some() || !gets[gi].flag.is_set() {
-                        continue;
-                    }
-                    let _ = gets[gi].flag.take();
-                    let Some(mut fut) = gets[gi].fut.take() else { continue };
-                    let waker = Waker::from(gets[gi].flag.clone());
-                    let mut cx = Context::from_waker(&waker);
-                    progressed = true;
-                    match fut.as_mut().poll(&mut cx) {
-                        Poll::Pending => gets[gi].fut = Some(fut),
-                        Poll::Ready(r) => {
-                            drop(fut);
-                            match res_of(&r) {
-                                Ok(res) => gets[gi].done = Some(res),
-                                Err(e) => fail!("undocumented-error", "get #{}: {}", gi, e),
-                            }
-                            if let Ok(o) = r {
-                                held.push(o);
-                            }
-                        }
-                    }
-                }
-                if !progressed {
-                    break;
-                }
-            }
-        }};
-    }
-    macro_rules! compare {
-        ($at:expr) => {{
-            if model.unspecified.is_some() {
-                out.labels.push("unspecified-situation".into());
-                return;
-            }
-            for gi in 0..gets.len() {
-                let real = gets[gi].done.clone();
-                let want = match &model.gets[gi].phase {
-                    Phase::Done(r) => Some(r.clone()),
-                    _ => None,
-                };
-                if real != want {
-                    let phase = model.gets[gi].phase.clone();
-                    fail!(
-                        "timing-model-mismatch",
-                        "{} (clock {} ms): get #{} with timeouts {:?} is {:?} but the reference model says {:?}",
-                        $at, model.now, gi, model.gets[gi].t, real, phase
-                    );
-                }
-            }
-            // rejected objects are destroyed and detached once, nothing else is
-            let (wd, wdet) = {
-                let w = world.w();
-                (w.destroyed.clone(), w.detached.clone())
-            };
-            for (id, d) in wd.iter().enumerate() {
-                let expect = model.destroyed.contains(&(id as u32));
-                if *d != expect {
-                    let det = wdet[id];
-                    fail!(
-                        "object-fate-mismatch",
-                        "{} (clock {} ms): object {} destroyed={} (detach calls {}) but the reference model says destroyed={}",
-                        $at, model.now, id, d, det, expect
-                    );
-                }
-                if *d && wdet[id] != 1 {
-                    let det = wdet[id];
-                    fail!("object-fate-mismatch", "{}: object {} was destroyed with {} detach calls", $at, id, det);
-                }
-            }
-            let sn = pool.verif_snapshot();
-            if !model.closed && sn.permits + model.in_use != max {
-                fail!(
-                    "slot-not-released",
-                    "{} (clock {} ms): {} free permits but the reference model has {} of {} slots in use ({:?})",
-                    $at, model.now, sn.permits, model.in_use, max, sn
-                );
-            }
-        }};
-    }
-
-    for (si, step) in case.steps.iter().enumerate() {
-        out.step = si;
-        world.w().log.push(format!("Step {} {:?} @ {} ms", si, step, model.now));
-        match *step {
-            Step::Get { per_call } => {
-                if gets.iter().filter(|g| g.done.is_none()).count() >= 5 {
-                    continue;
-                }
-                let t = per_call.unwrap_or(case.pool_t);
-                let p2 = pool.clone();
-                let fut: GetFut = match per_call {
-                    Some(t3) => {
-                        let to = t3.timeouts();
-                        Box::pin(async move { p2.timeout_get(&to).await })
-                    }
-                    None => Box::pin(async move { p2.get().await }),
-                };
-                let flag = WakeFlag::new();
-                flag.woken.store(true, std::sync::atomic::Ordering::SeqCst);
-                gets.push(RGet {
-                    fut: Some(fut),
-                    flag,
-                    done: None,
-                    first_poll_pending_zero_wait: false,
-                });
-                let model_before = model.clone();
-                let destroyed_before = model.destroyed.len();
-                let mrecycles_before = model.n_recycle;
-                let g = model.start_get(t);
-                let sn_before = pool.verif_snapshot();
-                let creates_before = world.w().n_create;
-                let recycles_before = world.w().n_recycle;
-                settle!();
-                // A call that names a non-zero timeout it could never apply (no runtime) may be
-                // refused up front even if it would not have needed that timeout this time.
-                if !case.runtime
-                    && (t.create.nonzero() || t.recycle.nonzero())
-                    && gets[g].done == Some(Res::NoRuntime)
-                    && !matches!(model.gets[g].phase, Phase::Done(Res::NoRuntime))
-                {
-                    let untouched = pool.verif_snapshot() == sn_before
-                        && world.w().n_create == creates_before
-                        && world.w().n_recycle == recycles_before;
-                    if untouched {
-                        model = model_before;
-                        model.gets.push(MGet { t, phase: Phase::Done(Res::NoRuntime) });
-                        out.labels.push("get:NoRuntimeSpecified-up-front".into());
-                    }
-                }
-                // zero wait never waits for a slot
-                if t.wait.ms() == Some(0) && gets[g].done.is_none() {
-                    let in_call = world.w().gates.iter().any(|gt| !gt.dead && !gt.open);
-                    if !in_call {
-                        gets[g].first_poll_pending_zero_wait = true;
-                        fail!("zero-wait-get-waits", "get #{} with a zero wait timeout is pending outside any manager call", g);
-                    }
-                }
-                if matches!(model.gets[g].phase, Phase::Done(Res::NoRuntime)) {
-                    out.labels.push("get:NoRuntimeSpecified".into());
-                    out.nontrivial = true;
-                    let sn_after = pool.verif_snapshot();
-                    // unless the call legitimately rejected idle objects on its way (judged by the model)
-                    let model_untouched = model.destroyed.len() == destroyed_before && model.n_recycle == mrecycles_before;
-                    if model_untouched && (sn_before != sn_after || world.w().n_create != creates_before) {
-                        fail!(
-                            "no-runtime-get-touched-pool",
-                            "get #{} without a runtime changed the pool from {:?} to {:?}",
-                            g, sn_before, sn_after
-                        );
-                    }
-                }
-                compare!("after get");
-            }
-            Step::Advance { ms } => {
-                if !case.runtime {
-                    continue;
-                }
-                let target = model.now + ms as u64;
-                loop {
-                    let next = model.next_deadline().filter(|d| *d <= target);
-                    let to = next.unwrap_or(target);
-                    if to > model.now {
-                        tokio::time::advance(Duration::from_millis(to - model.now)).await;
-                        model.now = to;
-                    }
-                    if next.is_some() {
-                        model.close_calls = true;
-                        if !model.expire() {
-                            out.labels.push("tie-between-two-deadlines".into());
-                            return;
-                        }
-                        settle!();
-                        compare!("after a deadline");
-                    }
-                    if model.now >= target {
-                        break;
-                    }
-                }
-                settle!();
-                compare!("after advance");
-            }
-            Step::OpenGate { i } => {
-                let mg = model.closed_gates();
-                let Some(k) = pick(i, mg.len()) else { continue };
-                let gate = mg[k];
-                // the real gate with the same ordinal
-                let waker = {
-                    let mut w = world.w();
-                    if gate >= w.gates.len() || w.gates[gate].dead {
-                        drop(w);
-                        fail!("gate-mismatch", "model gate {} has no live counterpart (manager calls differ from the model)", gate);
-                    }
-                    w.gates[gate].open = true;
-                    w.gates[gate].waker.take()
-                };
-                if let Some(wk) = waker {
-                    wk.wake();
-                }
-                // a completion close to its deadline?
-                if let Phase::Creating { deadline: Some(d), .. } | Phase::Recycling { deadline: Some(d), .. } = model.gets[model.gates[gate].get].phase {
-                    if d - model.now <= 1 {
-                        model.close_calls = true;
-                    }
-                }
-                model.open_gate(gate);
-                settle!();
-                compare!("after opening a gate");
-            }
-            Step::Return { h } => {
-                let Some(i) = pick(h, held.len()) else { continue };
-                let o = held.remove(i);
-                let id = o.id;
-                drop(o);
-                // a slot freed close to a waiter's deadline?
-                if let Some(&g) = model.waiters.front() {
-                    if let Phase::Waiting { deadline: Some(d) } = model.gets[g].phase {
-                        if d - model.now <= 1 {
-                            model.close_calls = true;
-                        }
-                    }
-                }
-                model.ret(id);
-                settle!();
-                compare!("after a return");
-            }
-            Step::Close => {
-                pool.close();
-                model.close();
-                settle!();
-                compare!("after close");
-            }
-        }
-    }
-    out.nontrivial = out.nontrivial || model.close_calls;
-    if model.close_calls {
-        out.labels.push("deadline-close-call".into());
-    }
-    for g in &model.gets {
-        if let Phase::Done(r) = &g.phase {
-            out.labels.push(format!("res:{:?}", r).split('(').next().unwrap_or("").to_string());
-        }
-    }
-    drop(gets);
-    drop(held);
-}
-
-// ------------------------------------------------------------------ interpreter (unmanaged)
-
-type UGetFut = Pin<Box<dyn Future<Output = Result<unmanaged::Object<u32>, unmanaged::PoolError>> + Send>>;
-
-fn run_unmanaged(case: &Case) -> Outcome {
-    let mut out = Outcome {
-        violation: None,
-        labels: vec![],
-        nontrivial: false,
-        trace: vec![],
-        step: 0,
-    };
-    let rt = if case.runtime {
-        Some(
-            tokio::runtime::Builder::new_current_thread()
-                .enable_time()
-                .start_paused(true)
-                .build()
-                .expect("runtime"),
-        )
-    } else {
-        None
-    };
-    let mut trace: Vec<String> = vec![];
-    let body = run_unmanaged_body(case, &mut out, &mut trace);
-    let r = catch_unwind(AssertUnwindSafe(|| match &rt {
-        Some(rt) => rt.block_on(body),
-        None => {
-            let waker = Waker::from(WakeFlag::new());
-            let mut cx = Context::from_waker(&waker);
-            let mut body = Box::pin(body);
-            match body.as_mut().poll(&mut cx) {
-                Poll::Ready(()) => {}
-                Poll::Pending => panic!("harness: body pending without a runtime"),
-            }
-        }
-    }));
-    if let Err(p) = r {
-        let pk = classify_panic(p);
-        if out.violation.is_none() {
-            out.violation = Some(("panic".into(), format!("a pool call panicked: {:?}", pk)));
-        }
-    }
-    out.trace = trace;
-    out
-}
-
-async fn run_unmanaged_body(case: &Case, out: &mut Outcome, trace: &mut Vec<String>) {
-    macro_rules! fail {
-        ($o:expr, $($a:tt)*) => {{
-            if out.violation.is_none() {
-                out.violation = Some(($o.to_string(), format!($($a)*)));
-            }
-            return;
-        }};
-    }
-    let n = case.max_size as usize;
-    let pool: unmanaged::Pool<u32> = unmanaged::Pool::from_config(&unmanaged::PoolConfig {
-        max_size: n,
-        timeout: case.pool_t.wait.dur(),
-        runtime: if case.runtime { Some(Runtime::Tokio1) } else { None },
-    });
-    for i in 0..n {
-        if pool.try_add(i as u32).is_err() {
-            fail!("try-add-failed", "try_add of object {} into an empty pool of size {} failed", i, n);
-        }
-    }
-    // model: queued objects, FIFO waiters with deadlines
-    let mut now: u64 = 0;
-    let mut queued: usize = n;
-    let mut waiters: VecDeque<(usize, Option<u64>)> = VecDeque::new();
-    let mut expect: Vec<Option<&'static str>> = vec![];
-    let mut closed = false;
-    let mut close_calls = false;
-    struct UG {
-        fut: Option<UGetFut>,
-        flag: Arc<WakeFlag>,
-        done: Option<&'static str>,
-    }
-    let mut gets: Vec<UG> = vec![];
-    let mut held: Vec<unmanaged::Object<u32>> = vec![];
-
-    macro_rules! settle {
-        () => {{
-            for _round in 0..64 {
-                let mut progressed = false;
-                for gi in 0..gets.len() {
-                    if gets[gi].done.is_some() || !gets[gi].flag.is_set() {
-                        continue;
-                    }
-                    let _ = gets[gi].flag.take();
-                    let Some(mut fut) = gets[gi].fut.take() else { continue };
-                    let waker = Waker::from(gets[gi].flag.clone());
-                    let mut cx = Context::from_waker(&waker);
-                    progressed = true;
-                    match fut.as_mut().poll(&mut cx) {
-                        Poll::Pending => gets[gi].fut = Some(fut),
-                        Poll::Ready(r) => {
-                            drop(fut);
-                            gets[gi].done = Some(match &r {
-                                Ok(_) => "Ok",
-                                Err(unmanaged::PoolError::Timeout) => "Timeout",
-                                Err(unmanaged::PoolError::Closed) => "Closed",
-                                Err(unmanaged::PoolError::NoRuntimeSpecified) => "NoRuntimeSpecified",
-                            });
-                            if let Ok(o) = r {
-                                held.push(o);
-                            }
-                        }
-                    }
-                }
-                if !progressed {
-                    break;
-                }
-            }
-        }};
-    }
-    macro_rules! compare {
-        ($at:expr) => {{
-            for gi in 0..gets.len() {
-                if gets[gi].done != expect[gi] {
-                    fail!(
-                        "timing-model-mismatch",
-                        "{} (clock {} ms): unmanaged get #{} is {:?} but the reference model says {:?}",
-                        $at, now, gi, gets[gi].done, expect[gi]
-                    );
-                }
-            }
-        }};
-    }
-
-    for (si, step) in case.steps.iter().enumerate() {
-        out.step = si;
-        trace.push(format!("Step {} {:?} @ {} ms", si, step, now));
-        match *step {
-            Step::Get { per_call } => {
-                if gets.iter().filter(|g| g.done.is_none()).count() >= 5 {
-                    continue;
-                }
-                let t = per_call.map(|t| t.wait).unwrap_or(case.pool_t.wait);
-                let p2 = pool.clone();
-                let fut: UGetFut = match per_call {
-                    Some(t3) => {
-                        let d = t3.wait.dur();
-                        Box::pin(async move { p2.timeout_get(d).await })
-                    }
-                    None => Box::pin(async move { p2.get().await }),
-                };
-                let flag = WakeFlag::new();
-                flag.woken.store(true, std::sync::atomic::Ordering::SeqCst);
-                gets.push(UG { fut: Some(fut), flag, done: None });
-                let g = gets.len() - 1;
-                // model
-                let e = if closed && !(t.nonzero() && !case.runtime) {
-                    Some("Closed")
-                } else if queued > 0 && waiters.is_empty() {
-                    // a mis-configured call is refused before it touches the pool
-                    if t.nonzero() && !case.runtime {
-                        Some("NoRuntimeSpecified")
-                    } else {
-                        queued -= 1;
-                        Some("Ok")
-                    }
-                } else {
-                    match t {
-                        Tmo::Zero | Tmo::Ms(0) => Some("Timeout"),
-                        Tmo::None => {
-                            waiters.push_back((g, None));
-                            None
-                        }
-                        Tmo::Ms(m) => {
-                            if !case.runtime {
-                                Some("NoRuntimeSpecified")
-                            } else {
-                                waiters.push_back((g, Some(now + m as u64)));
-                                None
-                            }
-                        }
-                    }
-                };
-                if e == Some("NoRuntimeSpecified") {
-                    out.nontrivial = true;
-                    out.labels.push("get:NoRuntimeSpecified".into());
-                }
-                expect.push(e);
-                settle!();
-                if matches!(t, Tmo::Zero) && gets[g].done.is_none() {
-                    fail!("zero-wait-get-waits", "unmanaged get #{} with a zero timeout is pending", g);
-                }
-                compare!("after get");
-            }
-            Step::Advance { ms } => {
-                if !case.runtime {
-                    continue;
-                }
-                let target = now + ms as u64;
-                loop {
-                    let next = waiters.iter().filter_map(|w| w.1).min().filter(|d| *d <= target);
-                    let to = next.unwrap_or(target);
-                    if to > now {
-                        tokio::time::advance(Duration::from_millis(to - now)).await;
-                        now = to;
-                    }
-                    if next.is_some() {
-                        close_calls = true;
-                        let due: Vec<usize> = waiters.iter().filter(|w| w.1.map(|d| d <= now).unwrap_or(false)).map(|w| w.0).collect();
-                        for g in due {
-                            waiters.retain(|w| w.0 != g);
-                            expect[g] = Some("Timeout");
-                        }
-                        settle!();
-                        compare!("after a deadline");
-                    }
-                    if now >= target {
-                        break;
-                    }
-                }
-                settle!();
-                compare!("after advance");
-            }
-            Step::OpenGate { .. } => {}
-            Step::Return { h } => {
-                let Some(i) = pick(h, held.len()) else { continue };
-                let o = held.remove(i);
-                drop(o);
-                if closed {
-                    // dropped by the closed pool
-                } else if let Some((g, d)) = waiters.pop_front() {
-                    if let Some(d) = d {
-                        if d - now <= 1 {
-                            close_calls = true;
-                        }
-                    }
-                    expect[g] = Some("Ok");
-                } else {
-                    queued += 1;
-                }
-                settle!();
-                compare!("after a return");
-            }
-            Step::Close => {
-                pool.close();
-                closed = true;
-                queued = 0;
-                for (g, _) in waiters.drain(..) {
-                    expect[g] = Some("Closed");
-                }
-                settle!();
-                compare!("after close");
-            }
-        }
-    }
-    out.nontrivial = out.nontrivial || close_calls;
-    if close_calls {
-        out.labels.push("deadline-close-call".into());
-    }
-    for e in expect.iter().flatten() {
-        out.labels.push(format!("ures:{}", e));
-    }
-}
-
-// ------------------------------------------------------------------ generation
-
-fn tmo() -> BoxedStrategy<Tmo> {
-    prop_oneof![
-        3 => Just(Tmo::None),
-        2 => Just(Tmo::Zero),
-        4 => prop_oneof![Just(10u16), Just(20), Just(30), Just(50)].prop_map(Tmo::Ms),
-    ]
-    .boxed()
-}
-
-fn t3(runtime: bool) -> BoxedStrategy<T3> {
-    (tmo(), tmo(), tmo())
-        .prop_map(move |(wait, mut create, mut recycle)| {
-            if !runtime {
-                // zero create / recycle timeouts without a runtime are outside the statement
-                if create == Tmo::Zero {
-                    create = Tmo::None;
-                }
-                if recycle == Tmo::Zero {
-                    recycle = Tmo::None;
-                }
-            }
-            T3 { wait, create, recycle }
-        })
-        .boxed()
-}
-
-fn outv() -> BoxedStrategy<Vec<Out>> {
-    prop::collection::vec(
-        prop_oneof![
-            5 => Just(Out::Ok),
-            1 => Just(Out::Err),
-            3 => any::<bool>().prop_map(Out::Gate),
-            1 => Just(Out::Never),
-        ],
-        0..8,
-    )
-    .boxed()
-}
-
-fn step(runtime: bool) -> BoxedStrategy<Step> {
-    prop_oneof![
-        6 => prop::option::weighted(0.6, t3(runtime)).prop_map(|per_call| Step::Get { per_call }),
-        6 => prop_oneof![Just(1u16), Just(5), Just(9), Just(10), Just(11), Just(19), Just(20), Just(21), Just(30), Just(49), Just(50), Just(51), Just(100)].prop_map(|ms| Step::Advance { ms }),
-        3 => any::<u8>().prop_map(|i| Step::OpenGate { i }),
-        4 => any::<u8>().prop_map(|h| Step::Return { h }),
-        1 => Just(Step::Close),
-    ]
-    .boxed()
-}
-
-fn case(thorough: bool) -> BoxedStrategy<Case> {
-    let maxlen = if thorough { 40 } else { 24 };
-    (any::<bool>(), prop::bool::weighted(0.7), 1u8..=3)
-        .prop_flat_map(move |(unmanaged, runtime, max_size)| {
-            (
-                Just(unmanaged),
-                Just(runtime),
-                Just(max_size),
-                // configured timeouts: mostly legal for the runtime at hand
-                prop_oneof![
-                    3 => Just(T3 { wait: Tmo::None, create: Tmo::None, recycle: Tmo::None }),
-                    2 => t3(runtime),
-                ],
-                outv(),
-                outv(),
-                prop::collection::vec(step(runtime), 1..=maxlen),
-            )
-        })
-        .prop_map(|(unmanaged, runtime, max_size, pool_t, create, recycle, steps)| Case {
-            unmanaged,
-            runtime,
-            max_size,
-            pool_t,
-            create,
-            recycle,
-            steps,
-        })
-        .boxed()
-}
-
-pub struct Tsim;
-
-impl Engine for Tsim {
-    const NAME: &'static str = "tsim";
-    type Case = Case;
-
-    fn properties() -> Vec<&'static str> {
-        vec!["C10"]
-    }
-
-    fn rule(_prop: &str) -> String {
-        "case = managed or unmanaged pool, runtime present (paused tokio clock) or absent, max_size 1..=3, pool-level and per-call wait / create / recycle timeouts in {none, zero, 10..50 ms}, scripted create / recycle outcomes (ok / error / gated / never) and a history of get / advance / open-gate / return / close steps; every woken future is polled after every step and Advance stops at every pending deadline; distinct by hash of the whole case. Non-trivial: a deadline expired or a completion (gate opened, slot freed) happened within 1 ms of a pending deadline, or a call or build with a non-zero timeout was made without a runtime".into()
-    }
-
-    fn assumptions(_prop: &str) -> Vec<String> {
-        vec![
-            "tokio runtime only (async-std is not exercised)".into(),
-            "ties between two different callers' deadlines at the same instant are skipped (the statement allows either order); zero create / recycle timeouts without a runtime and timeouts a call never gets to use are not judged".into(),
-            "the reference model assumes FIFO admission (tokio's fair semaphore) and an executor that polls woken tasks before the clock moves again".into(),
-        ]
-    }
-
-    fn stages(ctx: &Ctx) -> Vec<Stage<Case>> {
-        let thorough = ctx.tier == Tier::Thorough;
-        vec![Stage {
-            name: "random".into(),
-            cases: if thorough { 16 * 400000 } else { 16 * 20000 },
-            strategy: case(thorough),
-        }]
-    }
-
-    fn run(_ctx: &Ctx, case: &Case) -> Report {
-        let o = if case.unmanaged { run_unmanaged(case) } else { run_managed(case) };
-        let mut labels = o.labels;
-        labels.push(format!("{}:{}", if case.unmanaged { "unmanaged" } else { "managed" }, if case.runtime { "runtime" } else { "no-runtime" }));
-        labels.sort();
-        labels.dedup();
-        Report {
-            violation: o.violation.map(|(oracle, detail)| Violation {
-                oracle,
-                step: o.step,
-                detail,
-                trace: o.trace,
-            }),
-            nontrivial: o.nontrivial,
-            labels,
-            known: vec![],
-            inconclusive: None,
-            executions: 1,
-            sub_nontrivial: vec![],
-        }
-    }
-}
+//! thin binary around the `tsim` library (see lib.rs)
 
 fn main() {
-    vcore::main_for::<Tsim>()
+    vcore::main_for::<tsim::Tsim>()
 }
